@@ -719,6 +719,16 @@ func objectsEqual(a, b pyObject) bool {
 		}
 		return true
 	}
+	// A bool equals the integer it stands for (True == 1), as in Python.
+	if x, ok := a.(pyBool); ok {
+		if y, ok := b.(pyInt); ok {
+			return (bool(x) && y == 1) || (!bool(x) && y == 0)
+		}
+	} else if x, ok := a.(pyInt); ok {
+		if y, ok := b.(pyBool); ok {
+			return (bool(y) && x == 1) || (!bool(y) && x == 0)
+		}
+	}
 	return reflect.DeepEqual(a, b)
 }
 
